@@ -30,10 +30,10 @@ ASSUMPTIONS = ["TestScheduler / HistoricalScheduler are the clocks (ordering che
                "error, are outside the statement (the former are not generated, the check stops judging at the latter)",
                "partition: only the routing of elements is judged (the statement says nothing else); both outputs are "
                "subscribed at the same instant before the first element"]
-CASES = {"quick": 3600, "thorough": 120000}
+CASES = {"quick": 3600, "thorough": 300000}
 OPS = ["group_by", "group_by_until", "group_by_until", "partition"]
 REQUIRED = {"set:ops": 3, "set:keys": 7,
-            "groups_with_falsy_key": {"quick": 100, "thorough": 2000},
+            "groups_with_falsy_key": {"quick": 100, "thorough": 5000},
             "elements_joining_group_of_equal_key_of_other_type": {"quick": 30, "thorough": 600},
             "groups_reborn_after_expiry": {"quick": 50, "thorough": 1000},
             "source_error_with_2_or_more_open_groups": {"quick": 30, "thorough": 600},
